@@ -327,6 +327,14 @@ type Prog struct {
 	Src   *SourceForm
 	Items []Item
 	Snk   *SinkForm
+	Guard *Guard // C02: replaces the sink form (Snk is Sinks[0] then)
+}
+
+func (p *Prog) lastID() string {
+	if p.Guard != nil {
+		return p.Guard.ID
+	}
+	return p.Snk.ID
 }
 
 // Sig is the canonical signature of the program.
@@ -339,7 +347,7 @@ func (p *Prog) Sig() string {
 			parts = append(parts, it.Step.ID+"@"+string(it.Ctx))
 		}
 	}
-	parts = append(parts, p.Snk.ID)
+	parts = append(parts, p.lastID())
 	return strings.Join(parts, " | ")
 }
 
@@ -353,7 +361,7 @@ func (p *Prog) Atoms() []string {
 			a = append(a, it.Step.ID+"@"+string(it.Ctx))
 		}
 	}
-	return append(a, p.Snk.ID)
+	return append(a, p.lastID())
 }
 
 type renderer struct {
@@ -484,6 +492,9 @@ func (p *Prog) Valid() bool {
 		}
 		k = it.Step.Out
 	}
+	if p.Guard != nil {
+		return k == "S"
+	}
 	if p.Snk.In != nil {
 		ok := false
 		for _, x := range p.Snk.In {
@@ -524,7 +535,15 @@ func (p *Prog) Render(prefix string) (string, []string) {
 		x = y
 	}
 	r.need(p.Snk.Decls...)
-	if p.Snk.Early == "" {
+	if p.Guard != nil {
+		if p.Guard.ID == "gd.helperValid" {
+			r.need("validH")
+		}
+		if strings.Contains(p.Guard.Text, "$PT") {
+			r.need(dT)
+		}
+		body = append(body, subst(p.Guard.Text, x, "", 0))
+	} else if p.Snk.Early == "" {
 		body = append(body, subst(p.Snk.Text, x, "", 0))
 	} else {
 		body = append(body, "_ = "+x)
